@@ -15,12 +15,9 @@
    below is that function on the exact rational value; the harness compares it
    with Python's own formatter on every sampled double.
 
-   Two places model the REPAIRED behaviour of a reported defect:
-   * a top-level Interval is printed through stringify_result (floats with the
-     configured precision), not through Interval.__str__ (raw repr of floats);
-   * the decimal approximation of a fraction too large for a double is the
-     correctly rounded decimal of the fraction itself (the code raises
-     OverflowError out of display_result). *)
+   One place models the REPAIRED behaviour of a reported defect: a top-level
+   Interval is printed through stringify_result (floats with the configured
+   precision), not through Interval.__str__ (raw repr of floats). *)
 From Ka Require Export Model.Prelude.
 From Ka Require Export Model.Num.
 From Ka Require Import Gen.GenUnits.
@@ -275,12 +272,32 @@ Definition mixed_denote (w : option Z) (n d : Z) : Q :=
               else inject_Z a + inject_Z n / inject_Z d
   end.
 
-(* the parenthesised decimal approximation: precisionify_float(float(f)).
-   float(f) of a tiny negative fraction is -0.0, printed "-0". *)
+(* the parenthesised decimal approximation, precisionify_frac:
+   precisionify_float(float(f)); float(f) of a tiny negative fraction is -0.0,
+   printed "-0".  A fraction too large for a double (OverflowError) is divided
+   as Decimal(n)/Decimal(d) in the default context — 28 significant digits,
+   half-even, and always 28 digits here because the quotient exceeds 10^308 —
+   and Decimal's 'g' format rounds that once more (half-even) to p digits when
+   p < 28, keeps trailing zeros, and writes the exponent unpadded with a sign. *)
+Definition dec_sci_text (ds : list Z) (e : Z) : string :=
+  match ds with
+  | [] => EmptyString
+  | d :: r =>
+      String (digit_char d) (match r with [] => "" | _ => "." ++ dtext r end)
+      ++ "e" ++ (if (e <? 0)%Z then "-" else "+") ++ show_Z (Z.abs e)
+  end.
+Definition dec_fallback (p : Z) (a : Q) : string :=     (* a > 0 *)
+  let P := Z.max 1 p in
+  let '(c, e) := round_sig 28 a in
+  if (P <? 28)%Z then
+    let '(m, e2) := round_sig P (inject_Z c * bpow 10 (e - 27)) in
+    dec_sci_text (digits_msd (Z.to_nat P) m) e2
+  else dec_sci_text (digits_msd 28 c) e.
+
 Definition approx_text (p : Z) (q : Q) : string :=
   match float_of_Q q with
   | Some f => if Qeqb f 0 then (if Qltb q 0 then "-0" else "0") else fmt_g p f
-  | None => fmt_g p q        (* REPAIRED: the code raises OverflowError here *)
+  | None => if Qltb q 0 then "-" ++ dec_fallback p (- q) else dec_fallback p q
   end.
 
 (* ------------------------------------------------------------------- units *)
@@ -295,6 +312,57 @@ Fixpoint unit_words (names : list string) (dims : list Z) : list string :=
   end.
 
 Definition prettified (dims : list Z) : string := String.concat " " (unit_words base_units dims).
+
+(* reading the unit text back: words separated by single spaces, each name or name^exp *)
+Fixpoint split_caret (s : string) : string * option string :=
+  match s with
+  | EmptyString => (EmptyString, None)
+  | String c r =>
+      if Ascii.eqb c "^" then (EmptyString, Some r)
+      else let '(a, b) := split_caret r in (String c a, b)
+  end.
+Definition word_denote (w : string) : option (string * Z) :=
+  match split_caret w with
+  | (n, None) => Some (n, 1%Z)
+  | (n, Some t) => match Z_of_text t with Some e => Some (n, e) | None => None end
+  end.
+(* first word and the remaining words *)
+Fixpoint words_aux (s : string) : string * list string :=
+  match s with
+  | EmptyString => (EmptyString, [])
+  | String c r =>
+      let '(w, ws) := words_aux r in
+      if Ascii.eqb c " " then (EmptyString, w :: ws) else (String c w, ws)
+  end.
+Definition words (s : string) : list string :=
+  match s with
+  | EmptyString => []
+  | _ => let '(w, ws) := words_aux s in w :: ws
+  end.
+Fixpoint sequence {A} (l : list (option A)) : option (list A) :=
+  match l with
+  | [] => Some []
+  | Some a :: r => match sequence r with Some r' => Some (a :: r') | None => None end
+  | None :: _ => None
+  end.
+(* the dimension denoted by a unit text: (base-unit name, exponent) for every word *)
+Definition dims_of_text (s : string) : option (list (string * Z)) := sequence (map word_denote (words s)).
+
+(* the non-zero dimensions of a quantity, in base-unit order *)
+Fixpoint nonzero_dims (names : list string) (dims : list Z) : list (string * Z) :=
+  match names, dims with
+  | n :: ns, e :: es => if (e =? 0)%Z then nonzero_dims ns es else (n, e) :: nonzero_dims ns es
+  | _, _ => []
+  end.
+
+(* a base-unit name that can be read back: not empty, no space, no caret *)
+Fixpoint plain_name_chars (s : string) : bool :=
+  match s with
+  | EmptyString => true
+  | String c r => negb (Ascii.eqb c "^") && negb (Ascii.eqb c " ") && plain_name_chars r
+  end.
+Definition plain_name (s : string) : bool :=
+  match s with EmptyString => false | _ => plain_name_chars s end.
 
 (* ----------------------------------------------------------------- instants *)
 Fixpoint pad (k : nat) (z : Z) : string :=
@@ -318,6 +386,36 @@ Definition iso_text (y mo d h mi s us : Z) (tz : option Z) : string :=
   pad 4 y ++ "-" ++ pad 2 mo ++ "-" ++ pad 2 d ++ "T" ++ pad 2 h ++ ":" ++ pad 2 mi ++ ":" ++ pad 2 s
   ++ (if (us =? 0)%Z then "" else "." ++ pad 6 us)
   ++ match tz with None => "" | Some off => tz_text off end.
+
+(* tokens.py read_string on the text after the opening quote: a backslash
+   followed by a quote is kept (both characters) and does not close the string *)
+Definition quote_char : ascii := ascii_of_nat 34.
+Definition backslash_char : ascii := ascii_of_nat 92.
+Fixpoint read_string_body (s : string) : option string :=
+  match s with
+  | EmptyString => None
+  | String c r =>
+      if Ascii.eqb c backslash_char then
+        match r with
+        | String c2 r2 =>
+            if Ascii.eqb c2 quote_char
+            then option_map (fun t => String c (String c2 t)) (read_string_body r2)
+            else option_map (String c) (read_string_body r)
+        | EmptyString => None
+        end
+      else if Ascii.eqb c quote_char then Some EmptyString
+      else option_map (String c) (read_string_body r)
+  end.
+Definition read_string (s : string) : option string :=
+  match s with
+  | String c r => if Ascii.eqb c quote_char then read_string_body r else None
+  | EmptyString => None
+  end.
+Fixpoint plain_string (s : string) : bool :=      (* no quote, no backslash *)
+  match s with
+  | EmptyString => true
+  | String c r => negb (Ascii.eqb c quote_char) && negb (Ascii.eqb c backslash_char) && plain_string r
+  end.
 
 (* ------------------------------------------------------------------- values *)
 Inductive value :=
